@@ -70,7 +70,12 @@ func b01(b bool) string {
 
 func (t *GTy) Sexp() string {
 	switch t.Kind {
-	case "b", "i", "f", "s", "A":
+	case "i":
+		if t.rt != nil && t.rt.Kind() >= reflect.Int && t.rt.Kind() <= reflect.Int64 { // signed kinds
+			return "I"
+		}
+		return "i"
+	case "b", "f", "s", "A":
 		return t.Kind
 	case "P", "L", "M":
 		return "(" + t.Kind + " " + t.Elem.Sexp() + ")"
